@@ -2,8 +2,9 @@
 # seeded_meta.py <name> <property> <needs_to_manifest> <check_result>
 import json,sys
 name,prop,needs,res=sys.argv[1:5]
+rnd=name[-1]
 m={"property":prop,
- "source":"independent sub-agent (round 3: asked for a change different from rounds 1 and 2), given only the property text and a scratch worktree",
+ "source":"independent sub-agent (round %s: asked for a change different from the earlier rounds), given only the property text and a scratch worktree" % rnd,
  "needs_to_manifest":needs,
  "confirmed_by_me":["patch applies to /repo HEAD, project builds, pinned test suite passes with it (bin/seeded_check.sh)",
    "the agent's demonstration fails with the change and passes without it (re-run by me in the scratch worktree)"],
